@@ -123,17 +123,19 @@ impl ContinuityStreamCache {
         rip_kernel::verif::point("cache.side.opened");
 
         let mut writer = BufWriter::new(file);
-        let Ok(line) = serde_json::to_string(event) else {
+        let Ok(mut line) = serde_json::to_string(event) else {
             return;
         };
+        // One write for the line and its terminator (as EventLog::append): a line of BufWriter
+        // capacity or more bypasses the buffer, so a separate newline write would leave an
+        // unterminated line if the process died in between and the next append would be glued
+        // onto it.
+        line.push('\n');
         if writer.write_all(line.as_bytes()).is_err() {
             return;
         }
         #[cfg(rip_verif)]
         rip_kernel::verif::point("cache.side.body");
-        if writer.write_all(b"\n").is_err() {
-            return;
-        }
         #[cfg(rip_verif)]
         rip_kernel::verif::point("cache.side.nl");
         if writer.flush().is_err() {
@@ -243,17 +245,16 @@ impl ContinuityStreamCache {
         rip_kernel::verif::point("cache.mr.opened");
 
         let mut writer = BufWriter::new(file);
-        let Ok(line) = serde_json::to_string(event) else {
+        let Ok(mut line) = serde_json::to_string(event) else {
             return;
         };
+        // One write for the line and its terminator (see append_best_effort).
+        line.push('\n');
         if writer.write_all(line.as_bytes()).is_err() {
             return;
         }
         #[cfg(rip_verif)]
         rip_kernel::verif::point("cache.mr.body");
-        if writer.write_all(b"\n").is_err() {
-            return;
-        }
         #[cfg(rip_verif)]
         rip_kernel::verif::point("cache.mr.nl");
         if writer.flush().is_err() {
@@ -308,17 +309,16 @@ impl ContinuityStreamCache {
         #[cfg(rip_verif)]
         rip_kernel::verif::point("cache.comp.opened");
         let mut writer = BufWriter::new(file);
-        let Ok(line) = serde_json::to_string(event) else {
+        let Ok(mut line) = serde_json::to_string(event) else {
             return;
         };
+        // One write for the line and its terminator (see append_best_effort).
+        line.push('\n');
         if writer.write_all(line.as_bytes()).is_err() {
             return;
         }
         #[cfg(rip_verif)]
         rip_kernel::verif::point("cache.comp.body");
-        if writer.write_all(b"\n").is_err() {
-            return;
-        }
         #[cfg(rip_verif)]
         rip_kernel::verif::point("cache.comp.nl");
         let _ = writer.flush();
